@@ -31,6 +31,9 @@ type c20Case struct {
 	OwnKeys bool `json:"funding_utxos_have_own_keys,omitempty"`
 	// SameTx: the second funding UTXO is another output of the transaction that holds the ordinal
 	SameTx bool `json:"second_funding_utxo_shares_the_ordinals_txid,omitempty"`
+	// Tail: the inscription script of the ordinal goes on with OP_RETURN and this many raw bytes
+	// (an enriched inscription); 0 = none, 1..5 = tails of 0, 1, 2, 2, 3 bytes
+	Tail int `json:"ordinal_script_op_return_tail,omitempty"`
 }
 
 var c20Keys = testPrivKeys(4)
@@ -56,6 +59,10 @@ func c20Check(c c20Case) (fs []rep.Finding) {
 	ordLock := seller.lock
 	if c.Insc {
 		ordLock = append(append([]byte(nil), seller.lock...), c14Templates()["inscription"][25:]...)
+		if c.Tail > 0 {
+			// well-formed continuations of 0, 1, 2, 2 and 3 bytes after the OP_RETURN
+			ordLock = append(append(ordLock, 0x6a), [][]byte{{}, {0x00}, {0x01, 0x2a}, {0x51, 0x52}, {0x02, 0x2a, 0x2b}}[c.Tail-1]...)
+		}
 	}
 	ordUTXO := &bt.UTXO{TxID: txid32(0xee), Vout: 3, Satoshis: c.OrdSats, LockingScript: libScript(ordLock)}
 	buyerRecv := refP2PKH(fill(20, 0xb1))
@@ -261,6 +268,12 @@ func c20InscCheck(c c20Insc) (fs []rep.Finding) {
 			if len(tx.Outputs) != 2 || tx.Outputs[0].Satoshis != 8 || !bytes.Equal(*tx.Outputs[0].LockingScript, extra) {
 				return append(fs, rep.F("InscribeSpecificOrdinal|separator-output", "the output in front of the inscription does not hold the 8 satoshis that precede the chosen ordinal"))
 			}
+			// the same with 50 coins in front of the chosen input (more than 2^32 satoshis)
+			big := bt.NewTx()
+			_ = big.FromUTXOs(&bt.UTXO{TxID: txid32(3), Vout: 0, Satoshis: 5_000_000_000, LockingScript: libScript(prefix)}, &bt.UTXO{TxID: txid32(4), Vout: 1, Satoshis: 7, LockingScript: libScript(prefix)})
+			if err := big.InscribeSpecificOrdinal(args, 1, 3, libScript(extra)); err != nil || len(big.Outputs) != 2 || big.Outputs[0].Satoshis != 5_000_000_003 {
+				return append(fs, rep.F("InscribeSpecificOrdinal|separator-output", "with 5,000,000,000 satoshis in front the separating output does not hold 5,000,000,003"))
+			}
 		} else if err := tx.Inscribe(args); err != nil {
 			return append(fs, rep.F("Inscribe|error|"+cls, err.Error()))
 		}
@@ -304,7 +317,7 @@ func lenClass(n int) string {
 
 func init() {
 	p := register(&Prop{ID: "C20", Level: "exploration",
-		Rule: "exhaustive product: 4 flow pairs (list->accept, list->accept2Dummies, bid->accept, bid2Dummies->accept2Dummies) x seller/buyer keys (2x2 quick, 3x3 thorough) x funding UTXOs all locked to the buyer's key / each to a key of its own / the second one being another output of the ordinal's transaction x prices {1,2,546,1000,1000000} x ordinal UTXO of 1 (and 2) satoshis, plain or inscription script x funding sets of 2..4 UTXOs whose values are placed around the thresholds (price, price+1, reference-fee boundary -2..+3, ample) with the UTXO exceeding the price at every position x 3 fee quotes; the partially signed tx crosses a serialisation boundary. Oracle for every completed transaction: each input accepted by Execute(WithTx, WithForkID, WithAfterGenesis) against its spent output; listing flows keep the seller's output byte-identical at the index of the seller's input; FIFO satoshi assignment puts the ordinal's first satoshi in the buyer's script; inputs-outputs >= reference fee of the actual size. Inscriptions: content-type lengths {0,1,75,76,255,256} x payload lengths {0,1,75,76,255,256,65535,65536} x enrichment {none,1,2 parts} x prefix with/without spare capacity, plus one- and two-byte payloads and content types with every first byte value, inscribed twice through Inscribe and once through InscribeSpecificOrdinal (ordinal 3 of the second input; the separating output must hold the satoshis in front of it): ParseInscription returns the same content type, data and 25-byte prefix. distinct_nontrivial = distinct completed transactions + inscription cases",
+		Rule: "exhaustive product: 4 flow pairs (list->accept, list->accept2Dummies, bid->accept, bid2Dummies->accept2Dummies) x seller/buyer keys (2x2 quick, 3x3 thorough) x funding UTXOs all locked to the buyer's key / each to a key of its own / the second one being another output of the ordinal's transaction x prices {1,2,546,1000,1000000} x ordinal UTXO of 1 (and 2) satoshis, plain or inscription script (also continued by OP_RETURN and a well-formed tail of 0..3 bytes) x funding sets of 2..4 UTXOs whose values are placed around the thresholds (price, price+1, reference-fee boundary -2..+3, ample) with the UTXO exceeding the price at every position x 3 fee quotes; the partially signed tx crosses a serialisation boundary. Oracle for every completed transaction: each input accepted by Execute(WithTx, WithForkID, WithAfterGenesis) against its spent output; listing flows keep the seller's output byte-identical at the index of the seller's input; FIFO satoshi assignment puts the ordinal's first satoshi in the buyer's script; inputs-outputs >= reference fee of the actual size. Inscriptions: content-type lengths {0,1,75,76,255,256} x payload lengths {0,1,75,76,255,256,65535,65536} x enrichment {none,1,2 parts} x prefix with/without spare capacity, plus one- and two-byte payloads and content types with every first byte value, inscribed twice through Inscribe and once through InscribeSpecificOrdinal (ordinal 3 of the second input; the separating output must hold the satoshis in front of it): ParseInscription returns the same content type, data and 25-byte prefix. distinct_nontrivial = distinct completed transactions + inscription cases",
 	})
 	sF := NewSpace(p, "flows", c20Check)
 	sI := NewSpace(p, "inscriptions", c20InscCheck)
@@ -346,6 +359,12 @@ func init() {
 											yield(c20Case{Flow: flow, Seller: s, Buyer: b, Price: price, OrdSats: ordSats, Funds: fs, Q: q, Insc: (s+b+int(ex))%2 == 0})
 											yield(c20Case{Flow: flow, Seller: s, Buyer: b, Price: price, OrdSats: ordSats, Funds: fs, Q: q, Insc: (s+b+int(ex))%2 == 0, OwnKeys: true})
 											completed += 2
+											if (s+b == 0 || thorough) && (s+b+int(ex))%2 == 0 {
+												for tail := 1; tail <= 5; tail++ {
+													yield(c20Case{Flow: flow, Seller: s, Buyer: b, Price: price, OrdSats: ordSats, Funds: fs, Q: q, Insc: true, Tail: tail})
+													completed++
+												}
+											}
 											if s+b == 0 || thorough {
 												yield(c20Case{Flow: flow, Seller: s, Buyer: b, Price: price, OrdSats: ordSats, Funds: fs, Q: q, Insc: (s+b+int(ex))%2 == 0, SameTx: true})
 												completed++
